@@ -420,4 +420,223 @@ theorem frameEvents_exec (d : Dfsr) (p : Plan) (st : Store) (r0 : Run) (t : Nat)
     · rw [h3, ← hcs, filled_full]
       rw [rowSel_length, hc.hrl]
 
+
+/-! ### the frame loop for a channel subset (direct X) -/
+
+theorem emitFrame_none_eq (g : Nat) (es : List Ev) : (emitFrame g es none).1 = es.map (fun e => { e with fr := some g }) := by
+  induction es with
+  | nil => simp [emitFrame]
+  | cons e es ih => simp only [emitFrame, List.map_cons, ih]
+
+/-- renumbering a non-empty block of events that all carry the frame number `g = buf[j]` -/
+theorem renumber_block (buf : List Nat) (frInt g j : Nat) (hbj : buf[j]? = some g)
+    (hinc : ∀ (a b x y : Nat), a < b → buf[a]? = some x → buf[b]? = some y → x < y) :
+    ∀ (es : List Ev) (kk : Nat), (kk = j ∨ kk + 1 = j) → es ≠ [] → (∀ e ∈ es, e.fr = some g) →
+      renumber buf frInt es kk = withFr (frInt + j) es ∧ renumK buf es kk = j := by
+  have hjlen : j < buf.length := by
+    rcases Nat.lt_or_ge j buf.length with h | h
+    · exact h
+    · rw [List.getElem?_eq_none h] at hbj; cases hbj
+  have hstep : ∀ (e : Ev) (kk : Nat), (kk = j ∨ kk + 1 = j) → e.fr = some g → renumStep buf kk e = j := by
+    intro e kk hkk hfr
+    unfold renumStep
+    rcases hkk with rfl | hkk
+    · have : ¬ (kk + 1 < buf.length ∧ (buf[kk + 1]? = e.fr ∧ e.fr.isSome)) := by
+        intro ⟨_, he, _⟩
+        rw [hfr] at he
+        have := hinc kk (kk + 1) g g (by omega) hbj he
+        omega
+      rw [if_neg this]
+    · have : kk + 1 < buf.length ∧ (buf[kk + 1]? = e.fr ∧ e.fr.isSome) := by
+        rw [hkk, hfr]; exact ⟨hjlen, hbj, rfl⟩
+      rw [if_pos this]; exact hkk
+  intro es
+  induction es with
+  | nil => intro kk _ h; exact absurd rfl h
+  | cons e es ih =>
+    intro kk hkk _ hfr
+    have h1 := hstep e kk hkk (hfr e (List.mem_cons_self ..))
+    rw [renumber_cons, h1]
+    simp only [renumK, h1]
+    by_cases hes : es = []
+    · subst hes; simp [renumber, renumK, withFr]
+    · obtain ⟨h2, h3⟩ := ih j (Or.inl rfl) hes (fun x hx => hfr x (List.mem_cons_of_mem _ hx))
+      rw [h2, h3]; simp [withFr]
+
+theorem merged_form (p : Plan) (pre post : Option Ev) (step preSiz postSiz : Nat) (hpre : sizIs pre preSiz)
+    (hpost : sizIs post postSiz) :
+    (mergedPostFramePre p pre post step = none ∧ (step - 1) * p.frameSize + postSiz + preSiz = 0) ∨
+    ∃ cf ct, mergedPostFramePre p pre post step = some ⟨.skip, (step - 1) * p.frameSize + postSiz + preSiz, none, cf, ct⟩ := by
+  have hs : (if step > 1 then (step - 1) * p.frameSize else 0) = (step - 1) * p.frameSize := by
+    by_cases h : step > 1
+    · simp [h]
+    · have : step - 1 = 0 := by omega
+      simp [h, this]
+  unfold sizIs at hpre hpost
+  unfold mergedPostFramePre
+  simp only [hs]
+  cases pre <;> cases post <;> simp only at hpre hpost ⊢
+  · subst hpre hpost
+    simp only [Nat.add_zero]
+    by_cases h : (step - 1) * p.frameSize > 0
+    · right; exact ⟨none, none, by rw [if_pos h]⟩
+    · left; exact ⟨by rw [if_neg h], by omega⟩
+  · subst hpre hpost; right; exact ⟨_, _, rfl⟩
+  · subst hpre hpost; right; exact ⟨_, _, rfl⟩
+  · subst hpre hpost; right; exact ⟨_, _, rfl⟩
+
+
+theorem withFr_map (fr g : Nat) (es : List Ev) : withFr fr (es.map (fun e => { e with fr := some g })) = withFr fr es := by
+  simp [withFr]
+
+/-- the row of the frame at offset `g` of record `bs` for the selected channels `cs` (no indirect word) -/
+def rowOfSel (d : Dfsr) (p : Plan) (cs : List Nat) (bs : List Nat) (g : Nat) : List (Option Nat) :=
+  (rowSel d p cs (bs.drop (2 + g * p.frameSize))).map some
+
+theorem rowOfSel_length (d : Dfsr) (p : Plan) (cs : List Nat) (bs : List Nat) (g : Nat) :
+    (rowOfSel d p cs bs g).length = sumN ((selChans d cs).map Chan.numValues) := by
+  simp [rowOfSel, rowSel_length]
+
+/-- **Executing the renumbered frame loop of one record for a channel subset (direct X).** -/
+theorem frameLoop_exec_sel (d : Dfsr) (st : Store) (t : Nat) (bs : List Nat) (n stop step : Nat) (buf : List Nat)
+    (frInt : Nat) (p : Plan) (c0 : Nat) (rest : List Nat) (pre post : Option Ev) (fevts : List Ev)
+    (hp : p.sizes = d.chans.map Chan.size) (hpi : p.indr = 0) (hok : d.sizesOk) (hstep : 0 < step)
+    (hltc : ∀ c ∈ c0 :: rest, c < d.chans.length) (hsorted : (c0 :: rest).Pairwise (· < ·))
+    (hbs : bs.length = 2 + n * p.frameSize) (hstop : stop ≤ n)
+    (hret : retFrameEvents p (c0 :: rest) = (pre, fevts, post))
+    (hinc : ∀ (a b x y : Nat), a < b → buf[a]? = some x → buf[b]? = some y → x < y) :
+    ∀ (fuel g j kk : Nat) (r : Run), g < stop → stop - g ≤ fuel →
+      (∀ i, buf[j + i]? = (rangeList g stop step)[i]?) → (kk = j ∨ kk + 1 = j) →
+      r.cur = some (t, bs) → r.ofs = 2 + g * p.frameSize + p.skipToChStart c0 → r.fs.chIdx = c0 :: rest →
+      (∀ row ∈ r.fs.frames, row.length = sumN ((selChans d (c0 :: rest)).map Chan.numValues)) →
+      frInt + j + rangeLen g stop step ≤ r.fs.frames.length →
+      ∃ r', execEvs d st (renumber buf frInt
+          (frameLoop p fevts post (mergedPostFramePre p pre post step) stop step fuel g none) kk) r = .ok r' ∧
+        r'.fs = { r.fs with frames := setRows r.fs.frames (frInt + j) ((rangeList g stop step).map (rowOfSel d p (c0 :: rest) bs)) } ∧
+        r'.cur = r.cur := by
+  obtain ⟨_, _, hhead, hpre, hpost⟩ := retFrameEvents_spec p c0 rest hsorted 0 pre fevts post hret
+  have hfne : fevts ≠ [] := by intro h; rw [h] at hhead; simp at hhead
+  have hL := lastP1_pos rest c0
+  have hfs : p.skipToChStart (lastP1 rest (c0 + 1)) + p.skipToFrameEnd (lastP1 rest (c0 + 1) - 1) = p.frameSize := by
+    have := skip_end p (lastP1 rest (c0 + 1) - 1)
+    rwa [Nat.sub_add_cancel hL] at this
+  have hpostS : sizIs post (p.skipToFrameEnd (lastP1 rest (c0 + 1) - 1)) := by
+    unfold sizIs; unfold skipIs at hpost
+    cases post with
+    | none => exact hpost
+    | some e => exact hpost.2
+  have hpreS : sizIs pre (p.skipToChStart c0) := by
+    unfold sizIs; unfold preIs at hpre
+    cases pre with
+    | none => simp only at hpre; subst hpre; exact skip_zero p
+    | some e => exact hpre.2.1
+  have hmf := merged_form p pre post step _ _ hpreS hpostS
+  intro fuel
+  induction fuel with
+  | zero => intro g j kk r hg hfuel; omega
+  | succ fuel ih =>
+    intro g j kk r hg hfuel hb hkk hcur hofs hch hrows hN
+    have hbj : buf[j]? = some g := by have := hb 0; rwa [rangeList_getElem_zero g stop step hg hstep, Nat.add_zero] at this
+    have hlenN := rangeLen_lt g stop step hg hstep
+    have hltN : frInt + j < r.fs.frames.length := by omega
+    have hg1 : (g + 1) * p.frameSize ≤ n * p.frameSize := Nat.mul_le_mul_right _ (by omega)
+    have hg1' : (g + 1) * p.frameSize = g * p.frameSize + p.frameSize := by ring
+    -- the events of frame g
+    have hctx : FrameCtx d p r t bs (2 + g * p.frameSize) (frInt + j) (c0 :: rest) r.fs.frames[frInt + j] :=
+      ⟨hp, hok, hcur, by omega, hch, hltc, List.getElem?_eq_getElem hltN, hrows _ (List.getElem_mem hltN)⟩
+    obtain ⟨r1, hex1, hcur1, hofs1, hfs1⟩ := frameEvents_exec d p st r t bs (2 + g * p.frameSize) (frInt + j) c0 rest _ hctx
+      hsorted hofs pre post fevts hret
+    have hblock := renumber_block buf frInt g j hbj hinc (fevts.map (fun e => { e with fr := some g })) kk hkk
+      (by simpa using hfne) (by intro e he; obtain ⟨x, _, rfl⟩ := List.mem_map.1 he; rfl)
+    rw [withFr_map] at hblock
+    simp only [frameLoop, hg, if_true, hpi, Nat.lt_irrefl, if_false, List.append_nil]
+    cases hem : emitFrame g fevts none with
+    | mk evs pend' =>
+      have hevs : evs = fevts.map (fun e => { e with fr := some g }) := by
+        have := emitFrame_none_eq g fevts; rw [hem] at this; exact this
+      subst hevs
+      have hpn : pend' = none := by have := (emitFrame_none g fevts 0).1; rw [hem] at this; exact this
+      subst hpn
+      simp only
+      rw [rangeList_cons g stop step hg hstep]
+      by_cases hlast : g + step ≥ stop
+      · simp only [hlast, if_true]
+        rw [rangeList_nil _ _ _ hlast, renumber_append, hblock.1, hblock.2, execEvs_append, hex1]
+        have hgoal : r1.fs = { r.fs with frames := setRows r.fs.frames (frInt + j) (List.map (rowOfSel d p (c0 :: rest) bs) [g]) } := by
+          rw [hfs1]; simp [setRows, rowOfSel]
+        cases post with
+        | none => exact ⟨r1, by simp [evAt, renumber, execEvs], hgoal, hcur1.trans rfl⟩
+        | some e =>
+          unfold skipIs at hpost
+          simp only at hpost
+          obtain ⟨ops, hsk⟩ := exec_skip' d st r1 t bs e.siz (some (frInt + j)) e.cf e.ct (by rw [hcur1]; exact hcur)
+            (by rw [hofs1, hpost.2]; omega)
+          have hst : renumStep buf j { e with fr := some (g + step - step) } = j := by
+            have := (renumber_block buf frInt g j hbj hinc [{ e with fr := some g }] j (Or.inl rfl) (by simp) (by simp)).2
+            simpa [renumK, Nat.add_sub_cancel] using this
+          refine ⟨⟨r1.cur, r1.ofs + e.siz, r1.fs, ops⟩, ?_, hgoal, hcur1⟩
+          simp only [evAt, renumber_cons, hst, renumber, execEvs]
+          have : ({ ty := e.ty, siz := e.siz, fr := some (frInt + j), cf := e.cf, ct := e.ct } : Ev)
+              = ⟨.skip, e.siz, some (frInt + j), e.cf, e.ct⟩ := by rw [hpost.1]
+          rw [this, hsk]
+      · simp only [hlast, if_false]
+        have hgs : g + step < stop := by omega
+        have hmul : (g + step) * p.frameSize = g * p.frameSize + p.frameSize + (step - 1) * p.frameSize := by
+          obtain ⟨s', rfl⟩ : ∃ s', step = s' + 1 := ⟨step - 1, by omega⟩
+          simp only [Nat.add_sub_cancel]; ring
+        have hgs1 : (g + step) * p.frameSize ≤ n * p.frameSize := Nat.mul_le_mul_right _ (by omega)
+        have hle2 := skip_le_frame p c0
+        have hb1 : buf[j + 1]? = some (g + step) := by
+          have := hb 1
+          rwa [rangeList_getElem_succ g stop step 0 hg hstep, rangeList_getElem_zero _ _ _ hgs hstep] at this
+        have hb' : ∀ i, buf[j + 1 + i]? = (rangeList (g + step) stop step)[i]? := by
+          intro i
+          have := hb (i + 1)
+          rw [rangeList_getElem_succ g stop step i hg hstep] at this
+          rw [← this]; congr 1; omega
+        have hrows1 : ∀ row ∈ r1.fs.frames, row.length = sumN ((selChans d (c0 :: rest)).map Chan.numValues) := by
+          intro row' hm
+          rw [hfs1] at hm
+          rcases List.mem_or_eq_of_mem_set hm with h | h
+          · exact hrows _ h
+          · rw [h]; simp [rowSel_length]
+        have hN1 : frInt + (j + 1) + rangeLen (g + step) stop step ≤ r1.fs.frames.length := by
+          rw [hfs1]; simp only [List.length_set]; omega
+        have hch1 : r1.fs.chIdx = c0 :: rest := by rw [hfs1]; exact hch
+        have hgs2 : (g + step + 1) * p.frameSize ≤ n * p.frameSize := Nat.mul_le_mul_right _ (by omega)
+        have hgs2' : (g + step + 1) * p.frameSize = (g + step) * p.frameSize + p.frameSize := by ring
+        rcases hmf with ⟨hnone, hz⟩ | ⟨cf, ct, hsome⟩
+        · rw [hnone]
+          simp only [evAt, List.append_nil]
+          rw [renumber_append, hblock.1, hblock.2]
+          simp only [execEvs_append, hex1]
+          obtain ⟨r', hex, hfs', hc'⟩ := ih (g + step) (j + 1) j r1 hgs (by omega) hb' (Or.inr rfl) (by rw [hcur1]; exact hcur)
+            (by rw [hofs1]; omega) hch1 hrows1 hN1
+          rw [hnone] at hex
+          refine ⟨r', hex, ?_, by rw [hc', hcur1]⟩
+          rw [hfs', hfs1]; simp [setRows, rowOfSel]; ring_nf
+        · rw [hsome]
+          simp only [evAt, List.append_assoc, List.cons_append, List.nil_append]
+          rw [renumber_append, hblock.1, hblock.2]
+          simp only [execEvs_append, hex1]
+          have hl : j + 1 < buf.length := by
+            rcases Nat.lt_or_ge (j + 1) buf.length with h | h
+            · exact h
+            · rw [List.getElem?_eq_none h] at hb1; cases hb1
+          have hstS : renumStep buf j ⟨.skip, (step - 1) * p.frameSize + p.skipToFrameEnd (lastP1 rest (c0 + 1) - 1) + p.skipToChStart c0, some (g + step), cf, ct⟩ = j + 1 := by
+            unfold renumStep
+            have : j + 1 < buf.length ∧ (buf[j + 1]? = some (g + step) ∧ (some (g + step)).isSome) := ⟨hl, hb1, rfl⟩
+            rw [if_pos this]
+          obtain ⟨ops, hsk⟩ := exec_skip' d st r1 t bs ((step - 1) * p.frameSize + p.skipToFrameEnd (lastP1 rest (c0 + 1) - 1) + p.skipToChStart c0)
+            (some (frInt + (j + 1))) cf ct (by rw [hcur1]; exact hcur) (by rw [hofs1]; omega)
+          obtain ⟨r', hex, hfs', hc'⟩ := ih (g + step) (j + 1) (j + 1)
+            ⟨r1.cur, r1.ofs + ((step - 1) * p.frameSize + p.skipToFrameEnd (lastP1 rest (c0 + 1) - 1) + p.skipToChStart c0), r1.fs, ops⟩
+            hgs (by omega) hb' (Or.inl rfl) (by simp only; rw [hcur1]; exact hcur)
+            (by simp only; rw [hofs1]; omega) hch1 hrows1 hN1
+          rw [hsome] at hex
+          refine ⟨r', ?_, ?_, by rw [hc']; exact hcur1⟩
+          · simp only [renumber_cons, hstS, execEvs, hsk]
+            exact hex
+          · rw [hfs', hfs1]; simp [setRows, rowOfSel]; ring_nf
+
 end TD.C06
